@@ -203,10 +203,10 @@ def inCleanup (ro : Rollout) : Prop :=
   (ro.phase = .progressing ∧ (ro.reason = .finalising ∨ ro.reason = .cancelling)) ∨ ro.phase = .terminating ∨ ro.phase = .disabling
 
 /-- **outside the clean-up phases a blue-green Rollout reconcile neither resumes nor releases the workload** — for every world -/
-theorem reconcile_kept (w : World) (r : StepResult) (h : reconcile w = .val r) (hbg : w.ro.style = .blueGreen)
+theorem reconcile_kept_core (w : World) (r : StepResult) (h : reconcileCore w = .val r) (hbg : w.ro.style = .blueGreen)
     (hnc : ¬ inCleanup w.ro) : Kept w.br r.w.br := by
   have hfr := RV.Props.Reconcile.hf_frame w.ro
-  unfold reconcile at h
+  unfold reconcileCore at h
   dsimp only at h
   split at h
   · cases h; exact Kept.refl _
@@ -249,6 +249,13 @@ theorem reconcile_kept (w : World) (r : StepResult) (h : reconcile w = .val r) (
     · rename_i hph; exact absurd (Or.inr (Or.inr hph)) hnc
     · cases h; exact Kept.refl _
 
+/-- the same of the whole reconcile (body + cursor reset, which does not touch the BatchRelease) -/
+theorem reconcile_kept (w : World) (r : StepResult) (h : reconcile w = .val r) (hbg : w.ro.style = .blueGreen)
+    (hnc : ¬ inCleanup w.ro) : Kept w.br r.w.br := by
+  obtain ⟨r0, h0, rfl⟩ := reconcile_val h
+  rw [resetOnExit_br]
+  exact reconcile_kept_core w r0 h0 hbg hnc
+
 theorem updatedBr_kept (c : CBr) (b' : RolloutSM.BR) (hd : b'.deleting = c.deleting)
     (hp : b'.partition = c.partition ∨ b'.partition.isSome = true) (hcp : c.partition.isSome = true) :
     ∃ c2, RV.ClosedLoop.updatedBr c b' = some c2 ∧ c2.deleting = c.deleting ∧ c2.partition.isSome = true := by
@@ -271,7 +278,8 @@ theorem updatedBr_kept (c : CBr) (b' : RolloutSM.BR) (hd : b'.deleting = c.delet
     a release is rolling — whatever the step, sub-state, plan change, pause, superseding revision, jump request — it never does.
     What is NOT proved here: that inside a clean-up phase the resume comes after the traffic tasks of that phase's sequence have
     completed *and their effect persists* (the cursor invariant `RV.Props.Cluster.reach_inv_partial` proves that for a clean-up that keeps
-    its reason from an empty cursor; finding `bgCursorCarried` shows it is false when the reason changes mid-way).  The oracle
+    its reason from an empty cursor; when deletion / disabling changes the reason mid-way the cursor is cleared — fixed finding
+    `bgCursorCarried`, `RV.RolloutSM.resetOnExit` — and the new sequence starts from an empty cursor again).  The oracle
     `trafficBeforeScaleDown` judges it on every transition of the walks of the real controllers. -/
 theorem bg_resume_only_in_cleanup (s s' : BS) (hbg : s.ro.style = .blueGreen) (hs : bgStep s .ro = some s')
     (hres : resumeIssued s s' = true) : s.gone = false ∧ inCleanup s.ro := by
